@@ -507,6 +507,21 @@ func (n *node) check() error {
 		}
 	}
 
+	if n.Type() == NodeDeviation {
+		// RFC 6020 7.18.3.1: deviate 1..n.  The four kinds of deviate are
+		// separate node types, so the table cannot express "at least one".
+		deviates := 0
+		for _, c := range n.children {
+			if c.Type() == NodeDeviate || c.Type().IsDeviateNode() {
+				deviates++
+			}
+		}
+		if deviates == 0 {
+			return fmt.Errorf("%s: missing required '%s' statement",
+				ErrCard, NodeDeviate)
+		}
+	}
+
 	e := n.checkArgument()
 	if e != nil {
 		return e
